@@ -16,7 +16,8 @@ FUNCS = ['core.connection_manager:ConnectionManager.message', 'core.connection_i
 
 
 def step(ctx, case):
-    pre, sel, cmd, arrivals = case
+    pre, sel, cmd, arrivals = case[:4]
+    closed = case[4] if len(case) > 4 else None
     from core import matcher
     w = ctl.make_world(ctx, 2, display=matcher.never)
     try:
@@ -28,6 +29,9 @@ def step(ctx, case):
         w.ctl.stop_matcher = B
         if sel is not None:
             w.ctl.current_connection = w.conns[sel]
+        if closed is not None:
+            # the connection is gone (it stays listed and may stay selected); arrivals come on the other one
+            w.manager.close_connection(5.0, 'conn%d' % closed)
         F2 = None
         cur_sel = sel
         rec_before = (list(w.ctl.all_messages), [c.messages() for c in w.conns])
@@ -92,7 +96,10 @@ def obligations(tier):
             for cmd in (None, 'filter', 'conn0', 'conn1', 'all'):
                 for arr in arrs:
                     cases.append((pre, sel, cmd, arr))
-    bounds = 'records <= 3, 2 connections, selection none/A/B, optional command (filter / connection A / B / all), 1-%d arrivals; verdicts of all leaves symbolic' % max(len(a) for a in arrs)
+                for closed in (0, 1):
+                    cases.append((pre, sel, cmd, (1 - closed,), closed))
+                    cases.append((pre, sel, cmd, (1 - closed, 1 - closed), closed))
+    bounds = 'records <= 3, 2 connections, selection none/A/B (selected connection possibly closed), optional command (filter / connection A / B / all), 1-%d arrivals; verdicts of all leaves symbolic' % max(len(a) for a in arrs)
     return [Ob('live-view-step', 'symx', 'one live-view step from an arbitrary controller state', FUNCS, bounds, step, cases=cases,
                stubs=['abstract leaves', 'Message.show stubbed', 'matcher.parse stubbed inside the filter command']),
             Ob('live-view-step-reachable', 'symx', 'reachability twin', FUNCS, bounds, twin, cases=[((0,), None, 'filter', (0, 1))], expect_cex=True)]
